@@ -57,6 +57,10 @@ type c14rWorld struct {
 	subRet   []c14rSubRet
 	// allLate: none of the validators is active before the second epoch after the one vouch starts in
 	allLate bool
+	// lateAccount: the account of validator 1 (alone in its committee) becomes known to the account manager one slot after vouch started
+	lateAccount bool
+	// waitedG: vouch was started before genesis and begins with the chain (its epoch ticker then runs for epoch 0 too)
+	waitedG bool
 }
 
 type c14rSubRet struct {
@@ -121,7 +125,7 @@ func (w *c14rWorld) AggregatorsAndSignatures(_ context.Context, accounts []e2wty
 }
 
 func c14rBody(w *c14rWorld, startAt int64, ap [2]string, attestDur, subDelay int64) {
-	*w = c14rWorld{c03World: &c03World{attKinds: ap, propKinds: [2]string{"A", "A"}, startAt: startAt, reorgAt: -1, attestDur: attestDur}, subDelay: subDelay, allLate: w.allLate}
+	*w = c14rWorld{c03World: &c03World{attKinds: ap, propKinds: [2]string{"A", "A"}, startAt: startAt, reorgAt: -1, attestDur: attestDur}, subDelay: subDelay, allLate: w.allLate, lateAccount: w.lateAccount, waitedG: w.waitedG}
 	ctx, cancel := mcontext.WithCancel(context.Background())
 	defer cancel()
 	ct := newChainTime(-(int64(c03Epoch0*c03SPE)*int64(c03SlotDur) + startAt), c03SlotDur, c03SPE)
@@ -133,6 +137,9 @@ func c14rBody(w *c14rWorld, startAt int64, ap [2]string, attestDur, subDelay int
 	}
 	// validator 3 becomes active with the epoch after the one vouch starts in: the accounts of the two epochs differ
 	accts := &accountsTable{byIndex: byIndex, activeFrom: map[phase0.ValidatorIndex]phase0.Epoch{3: phase0.Epoch(c03Epoch0 + 1)}}
+	if w.lateAccount {
+		accts.knownFrom = map[phase0.ValidatorIndex]int64{1: int64(c03SlotDur)}
+	}
 	if w.allLate {
 		late := phase0.Epoch(c03Epoch0 + 2)
 		accts.activeFrom = map[phase0.ValidatorIndex]phase0.Epoch{1: late, 2: late, 3: late}
@@ -144,6 +151,7 @@ func c14rBody(w *c14rWorld, startAt int64, ap [2]string, attestDur, subDelay int
 	must(err)
 	w.fastTrack = mc.Choose(2) == 1
 	_, err = standardcontroller.New(ctx,
+		standardcontroller.WithWaitedForGenesis(w.waitedG),
 		standardcontroller.WithFastTrackAttestations(w.fastTrack), standardcontroller.WithFastTrackSyncCommittees(w.fastTrack), standardcontroller.WithFastTrackGrace(c03Grace),
 		standardcontroller.WithLogLevel(zerolog.Disabled), standardcontroller.WithMonitor(nullmetrics.New()),
 		standardcontroller.WithSpecProvider(&specProvider{m: baseSpec(c03SlotDur, c03SPE)}), standardcontroller.WithChainTimeService(ct),
@@ -391,6 +399,35 @@ func init() {
 				}
 				units = append(units, u)
 			}
+			// validator 1's account turns up one slot after the start (start-up has subscribed the next epoch without it)
+			{
+				sa := sa
+				w := &c14rWorld{lateAccount: true}
+				u := hx.Unit{Name: fmt.Sprintf("C14/reorg/start%d/account-added-after-start", si), Cfg: mc.Config{Deviation: true, Horizon: int64(40 * c03SlotDur)}, Bound: 0}
+				u.Body = func() { c14rBody(w, sa, [2]string{"E", "E"}, 0, 0) }
+				u.Check = func(r *mc.Result) mc.Verdict {
+					v := c14rCheck(w, r)
+					v.Nontrivial = true
+					return v
+				}
+				units = append(units, u)
+			}
+			// ... and the same at the start of a chain, vouch having waited for genesis
+			if si == 0 {
+				w := &c14rWorld{lateAccount: true, waitedG: true}
+				u := hx.Unit{Name: "C14/reorg/genesis-waited/account-added-after-start", Cfg: mc.Config{Deviation: true, Horizon: int64(40 * c03SlotDur)}, Bound: 0}
+				u.Body = func() {
+					c03Epoch0 = 0
+					c14rBody(w, 0, [2]string{"E", "E"}, 0, 0)
+				}
+				u.Check = func(r *mc.Result) mc.Verdict {
+					v := c14rCheck(w, r)
+					v.Nontrivial = true
+					c03Epoch0 = 2
+					return v
+				}
+				units = append(units, u)
+			}
 			// a slow attester (7 s) and a beacon node that takes its time over the subscriber's duty request: the
 			// subscription information reaches the controller before, while or after a slot's attestations are made
 			for _, sd := range []int64{10, 20, 40} {
@@ -408,5 +445,5 @@ func init() {
 		}
 		return units
 	}
-	p.Rule += "; (reorg) the real controller (fast track off / on) + scheduler + subscriber run for three epochs with a head event announcing changed dependent roots in one of the next five slots (1 s or 6 s into the slot, previous or current root) and duty tables that move, drop or add duties: every duty handed out for a future slot is subscribed, and every attestation is followed by one aggregation per committee with a selected aggregator (validators 1 and 3 are selected, 2 is not) at slot start + aggregation delay; the same from the first epoch of the chain (epoch 0); the same with validators that all become active two epochs after the start (an epoch passes without any active validator; every duty of the activation epoch must be subscribed); the same with an attester that takes 7 s and a beacon node that takes 10 / 20 / 40 s over the subscriber's duty request: an aggregation is owed whenever the subscription information reached the controller before the attestations were made"
+	p.Rule += "; (reorg) the real controller (fast track off / on) + scheduler + subscriber run for three epochs with a head event announcing changed dependent roots in one of the next five slots (1 s or 6 s into the slot, previous or current root) and duty tables that move, drop or add duties: every duty handed out for a future slot is subscribed, and every attestation is followed by one aggregation per committee with a selected aggregator (validators 1 and 3 are selected, 2 is not) at slot start + aggregation delay; the same from the first epoch of the chain (epoch 0); the same with an account that the account manager only knows from one slot after the start; the same with validators that all become active two epochs after the start (an epoch passes without any active validator; every duty of the activation epoch must be subscribed); the same with an attester that takes 7 s and a beacon node that takes 10 / 20 / 40 s over the subscriber's duty request: an aggregation is owed whenever the subscription information reached the controller before the attestations were made"
 }
